@@ -704,6 +704,22 @@ func runC01(c *Ctx) int {
 		c01Point(run, pc, t, k)
 	}
 	run.Count("single_point_calls", int64(nPoints))
+	// The constant pacer's overflow guard is a comparison against MaxInt64/interval: probe the hit
+	// counts around that boundary, where (hits+1)*interval first exceeds the representable range.
+	boundary := 0
+	for _, pc := range cases {
+		if pc.Kind != "constant" || !pc.valid() || pc.Freq <= 0 || pc.Per/int64(pc.Freq) <= 0 {
+			continue
+		}
+		q := uint64(math.MaxInt64 / (pc.Per / int64(pc.Freq)))
+		for d := -2; d <= 2; d++ {
+			for _, t := range []int64{0, 1, 1 << 40, math.MaxInt64 / 2, math.MaxInt64} {
+				c01Point(run, pc, t, q+uint64(int64(d)))
+				boundary++
+			}
+		}
+	}
+	run.Count("overflow_boundary_point_calls", int64(boundary))
 
 	run.Floor("pace_calls", int64(c.Pick(20000000, 200000000)))
 	run.Floor("steps_with_positive_wait", 10000)
@@ -742,8 +758,11 @@ func c01Point(run *ev.Run, pc pacerCase, t int64, k uint64) {
 			c01Witness{Case: pc, Clause: "W-point", Elapsed: t, Hits: k, Wait: int64(w), SchedT: sT, Tol: tol})
 		return
 	}
-	if pc.Kind == "constant" && w > 0 && t <= math.MaxInt64-int64(w) {
-		sAt := ref.cum(float64(t) + float64(w))
+	// The hit k+1 is released at t+max(w,0): "go now" (w <= 0) while the count is already more than
+	// one hit ahead of the schedule is as early as a wait that is too short (a product that wrapped
+	// shows up as either).
+	if pc.Kind == "constant" && (w <= 0 || t <= math.MaxInt64-int64(w)) {
+		sAt := ref.cum(float64(t) + math.Max(float64(w), 0))
 		if (float64(k) + 1) > sAt+1+tol+1e-9*(1+sAt) {
 			run.Violate(fmt.Sprintf("C01/U-early/%s/%s", pc.Kind, pc.regime()),
 				fmt.Sprintf("constant pacer %+v at arbitrary point Pace(%d,%d)=(%d,false) releases hit %d when schedule=%.6g (wrapped arithmetic?)", pc, t, k, int64(w), k+1, sAt),
